@@ -886,6 +886,10 @@ class Interp:
                         and self.ctx.prog.adts[a[1]]["kind"] == "enum" and t["args"][i].get("m") is not None or \
                         (isinstance(a, tuple) and a[0] == "agg" and isinstance(a[1], str) and a[1] in self.ctx.prog.adts and self.ctx.prog.adts[a[1]]["kind"] == "enum" and a[2] is not None):
                     spec.append((i + 1, self.ctx.variant_discr(a[1], a[2])))
+                elif is_const(a) and isinstance(const_val(a), int) and not isinstance(const_val(a), bool) and i < self.prog.bodies[path].arg_count \
+                        and self.prog.bodies[path].locals[i + 1]["t"].get("k") in ("uint", "int") and len(self.prog.bodies[path].blocks) <= 40:
+                    # one level of context for integer constants (an index or size handed to a shared helper)
+                    spec.append((i + 1, ("int", const_val(a))))
             posts = self.ctx.posts(path, tuple(spec))
             if posts:
                 from . import summaries
